@@ -243,13 +243,16 @@ def classify(rec):
     if a == "Import":
         return "C14:import:%s%s" % (rec["kind"], "" if rec["stream"] else ":empty-stream")
     if a == "Reserialize":
+        if rec.get("via") == "snapshot":
+            return "C14:snapshot:offline:%s" % ("fresh-store" if rec["fresh"] else "nonempty-store")
         return "C14:unmarshal:%s" % ("fresh-target" if rec["fresh"] else "nonempty-target")
     if a == "SnapSave":
         return "C14:snapshot:save"
     if a == "Offline":
         return "C14:snapshot:offline"
     if a == "StartPeer":
-        return "C14:snapshot:startpeer" + (":after-import" if rec.get("afterimport") else "")
+        return "C14:snapshot:startpeer" + (":after-import" if rec.get("afterimport") else "") + \
+            (":nonempty-store" if rec.get("dirty") else "")
     if a == "PSave":
         return "C14:peerstore:save"
     if a in ("PLoad", "PImport", "PRound"):
@@ -265,7 +268,8 @@ WHAT = {
     "RotSave": "SnapshotSave lost the new snapshot or broke the backup rotation of the one it replaced",
     "Export": "the exported stream is not the source pinset",
     "Import": "export then import did not reproduce the pinset on the target",
-    "Reserialize": "Marshal then Unmarshal did not reproduce the pinset",
+    "Reserialize": "serialising then deserialising the state (Marshal/Unmarshal, or SnapshotSave/OfflineState) did not "
+                   "reproduce the pinset",
     "SnapSave": "SnapshotSave failed",
     "Offline": "OfflineState does not read back the saved snapshot",
     "StartPeer": "a Raft peer started on the saved snapshot does not hold its pinset",
